@@ -2,6 +2,7 @@
 static struct vt_in in;
 #ifdef VT_REPLAY
 #include "vt_replay_values.h"
+__attribute__((weak)) uint32_t time_now(void) { return 0; }	/* only util.c's ratelimit helper wants it */
 void VT_ENTRY(void);
 int main(void) { VT_ENTRY(); fprintf(stderr, "VT: completed without violation\n"); return 0; }
 #else
